@@ -102,6 +102,16 @@ func (o *Options) ServerOptions() []string {
 		sargv = append(sargv, argstr)
 	}
 
+	// The -D option sets both --devices and --specials on the other side,
+	// so send the difference explicitly (like rsync ≥ 2.6.7 does).
+	if o.PreserveDevices() {
+		if !o.PreserveSpecials() {
+			sargv = append(sargv, "--no-specials")
+		}
+	} else if o.PreserveSpecials() {
+		sargv = append(sargv, "--specials")
+	}
+
 	// if (block_size) {
 	// 	if (asprintf(&arg, "-B%u", block_size) < 0)
 	// 		goto oom;
